@@ -38,6 +38,8 @@ type violation struct {
 	Viol   []string    `json:"viol"`
 	Known  []string    `json:"known,omitempty"`
 	Detail interface{} `json:"detail,omitempty"`
+	// Opts are the model options of the pass that found the violation (used by --replay)
+	Opts interface{} `json:"opts,omitempty"`
 }
 
 type bfsOut struct {
@@ -245,7 +247,7 @@ func runBFS(bin, scratch string, c bfsCfg) (*bfsOut, error) {
 					vk := r.Key + "|" + strings.Join(r.Viol, "|")
 					if !violSeen[vk] {
 						violSeen[vk] = true
-						out.Violations = append(out.Violations, violation{Hist: h, Viol: r.Viol, Known: r.KnownTags, Detail: r.Detail})
+						out.Violations = append(out.Violations, violation{Hist: h, Viol: r.Viol, Known: r.KnownTags, Detail: r.Detail, Opts: c.Opts})
 					}
 				}
 				continue
@@ -268,7 +270,7 @@ func runBFS(bin, scratch string, c bfsCfg) (*bfsOut, error) {
 			}
 			if len(r.Viol) > 0 {
 				violSeen[r.Key+"|"+strings.Join(r.Viol, "|")] = true
-				out.Violations = append(out.Violations, violation{Hist: h, Viol: r.Viol, Known: r.KnownTags, Detail: r.Detail})
+				out.Violations = append(out.Violations, violation{Hist: h, Viol: r.Viol, Known: r.KnownTags, Detail: r.Detail, Opts: c.Opts})
 				known := len(r.KnownTags) > 0
 				for _, t := range r.KnownTags {
 					if !c.OpenTags[t] {
